@@ -213,10 +213,30 @@ def entry_cases(tier):
 
 def run_entry(case):
     world.reset()
+    peer = EntryPeer(case['T'], case['mode'])
+    loop = KLoop(peer)
+    return _entry_call(case, peer, loop)
+
+
+def run_entry_seq(cases):
+    """Several entry-point calls one after the other in ONE process state (same endpoint, different timeout/retries):
+    every call is judged by the values IT was given."""
+    world.reset()
+    peer = EntryPeer(cases[0]['T'], cases[0]['mode'])
+    loop = KLoop(peer)
+    out = []
+    for i, case in enumerate(cases):
+        peer.T, peer.mode, peer.answered = case['T'], case['mode'], 0
+        n0 = len(peer.sent)
+        t0 = loop.time()
+        vio, info = _entry_call(case, peer, loop, n0, t0)
+        out.append((vio, info))
+    return out
+
+
+def _entry_call(case, peer, loop, n0=0, t0=0.0):
     g = world.goodwe
     T, R = case['T'], case['R']
-    peer = EntryPeer(T, case['mode'])
-    loop = KLoop(peer)
 
     async def main():
         try:
@@ -252,7 +272,7 @@ def run_entry(case):
     vio = []
     if st == 'hang':
         vio.append(('entry:terminates', str(res)))
-    if sum(i1 - i0 for i0, i1, _, _ in spans) != len(peer.sent):
+    if sum(i1 - i0 for i0, i1, _, _ in spans) != len(peer.sent) - n0:
         vio.append(('entry:transmission-outside-request', ''))
     wantT, wantR = (1, 0) if case['entry'] == 'search' else (T, R)
     lat = 0.001 if tcp else 0.0
@@ -268,7 +288,7 @@ def run_entry(case):
             vio.append(('entry:spacing=timeout', f'probe {gi}: spacing {bad[0]:.6f}, timeout={wantT}'))
             break
     # documented unit address in Modbus probes
-    for t, fd, d, _ in peer.sent:
+    for t, fd, d, _ in peer.sent[n0:]:
         if d[:2] == b'\xaa\x55' or case['entry'] == 'search':
             continue
         unit = d[6] if tcp else d[0]
@@ -276,10 +296,26 @@ def run_entry(case):
             vio.append(('entry:unit-address', f'unit {unit:#x}'))
             break
     if st != 'hang' and case['entry'] == 'search' and case['mode'] == 'silent':
-        if abs(loop.time() - 1.0) > TOL:
+        if abs(loop.time() - t0 - 1.0) > TOL:
             vio.append(('entry:search-1s', f'{loop.time()}'))
     return vio, dict(case=case, result=res, probes=[(k.hex()[:24], len(ts), [round(b - a, 6) for a, b in zip(ts, ts[1:])])
                                                    for k, ts in gr])
+
+
+def seq_cases(tier):
+    import itertools
+    base = [dict(entry='connect', family='ET', port=8899), dict(entry='connect', family='DT', port=8899),
+            dict(entry='connect', family='ES', port=8899), dict(entry='connect', family='ET', port=502),
+            dict(entry='discover', port=8899), dict(entry='discover', port=502), dict(entry='connect-discover', port=8899)]
+    grids = [((1, 3), (2, 1)), ((2, 0), (1, 2)), ((1, 1), (1, 1))] if tier == 'thorough' else [((1, 3), (2, 1)), ((2, 0), (1, 2))]
+    for a, b in itertools.product(base, repeat=2):
+        for (ga, gb) in grids:
+            for ma in (('silent', 'first') if tier == 'thorough' else ('silent',)):
+                yield [dict(a, T=ga[0], R=ga[1], mode=ma), dict(b, T=gb[0], R=gb[1], mode='silent')]
+
+
+def job_seq(cases):
+    return run_entry_seq(cases)
 
 
 def job_b(case):
@@ -319,7 +355,16 @@ def run(tier, seed, rep):
         for clause, cause in vio:
             cell = case['entry'] + ('/tcp' if case['port'] == 502 else '/udp') + '/' + case['mode']
             rep.add(f'{clause}/{cell}', clause, dict(part='B', case=case), dict(cause=cause, **info))
-    cov = dict(session_histories=_ses.executions, session_states=len(_ses.states), session_choice_points=_ses.choice_points,
+    seqs = list(seq_cases(tier))
+    nseq = 0
+    for cs, outs in zip(seqs, pmap(job_seq, seqs, chunksize=4)):
+        nseq += 1
+        for i, (vio, info) in enumerate(outs):
+            for clause, cause in vio:
+                c = cs[i]
+                cell = c['entry'] + ('/tcp' if c['port'] == 502 else '/udp') + (f"/after:{cs[0]['entry']}" if i else '/first-of-two')
+                rep.add(f'{clause}/{cell}', clause, dict(part='S', cases=cs), dict(cause=cause, call=i, **info))
+    cov = dict(entry_point_sequences=nseq, session_histories=_ses.executions, session_states=len(_ses.states), session_choice_points=_ses.choice_points,
                states=len(total.states), transitions=len(total.edges), executions=total.executions + nb,
                traces_validated_against_impl=total.executions + nb,
                histories=total.executions, entry_point_cases=nb, entry_outcomes=eoc,
@@ -343,5 +388,8 @@ def replay(r):
         _, _, obs = run_history(r['cfg'], r['history'])
         return dict(history=r['history'], probe_tx=[t for t, _, _ in obs.txs], probe_done=obs.t1,
                     result=obs.result[:3], violations=probe_monitor(r['cfg'], obs))
+    if r['part'] == 'S':
+        outs = run_entry_seq(r['cases'])
+        return dict(calls=[i for _, i in outs], violations=[v for vio, _ in outs for v in vio])
     vio, info = run_entry(r['case'])
     return dict(info=info, violations=vio)
